@@ -97,6 +97,7 @@ public:
   int code_count;
   int error_count;
   int ifdef_count;
+  int include_count;
   int parsing_ifdef;
   Linker *linker;
   char def_param_stack_data[PARAM_STACK_LEN];
